@@ -92,6 +92,21 @@ claim("C14",
       "fixed alphabet (sortedness is checked through a rank table).",
       "TLA+ model of the edit operations checked by TLC + replay of edit histories + TLC trace validation", "5/C14")
 
+claim("C02",
+      "TLC checks TopoSort.tla (a literal transcription of nx_constant_topological_sort over names as character-code sequences): the order is "
+      "topological, the cached full order restricted to any executed subset stays dependency respecting (CacheSound), and - negative control, "
+      "known finding F3 - the order of the user's nodes depends on the random suffix of auto-named private constants for prefix-related names.  "
+      "One key K = (graph, seed, batch index, batch size, outputs) is executed repeatedly in one process: plainly, after perturbation histories "
+      "(consume / reseed np.random, generate other models, unseeded generate, Rejection on another model, other outputs), through a shared "
+      "ComputationContext that first computed other batch indices, after rebuilding the model in another insertion order, and on the "
+      "multiprocessing client; recording stochastic operations log the generator object and its state before/after.  TLC validates each "
+      "trace against Purity_Trace.tla: bit-identical digests, single generator, generator state = RandomState(SubSeed(seed, batch index)) with "
+      "SubSeed computed by the C15 operators from the real numpy stream, states chained, order dependency-respecting and fixed (P:), order "
+      "equal to the transcribed constant topological sort of the real compiled net (M:).  Seeded Rejection and SMC runs are compared the same way.",
+      "Digest = sha256 of the returned float arrays; the multiprocessing client is compared by results only; statement's 'model' is read up to "
+      "the names of auto-named private constants (F3 is the case where that matters).",
+      "TLA+ transcription of the sort checked by TLC + TLC trace validation of repeated executions under perturbation histories", "5/C02")
+
 ALL = ["C%02d" % i for i in range(1, 21)]
 
 
